@@ -122,7 +122,7 @@ def make_dist(rnd, mean_unit, n_units, family=None, safe=False):
         a = min(0.9, 2.0 / (T + 1.0))
         return f"|flory_schulz({float('%.3g' % a)})|", fam
     if fam == "schulz_zimm":
-        D = rnd.choice([1.05, 1.2, 1.5, 1.9])
+        D = rnd.choice([1.003, 1.05, 1.2, 1.5, 1.9, 1.006])  # below 1.01: nearly monodisperse declarations (anionic grades)
         Mn = float(round(T))
         Mw = float(round(Mn * D)) + (1.0 if round(Mn * D) == Mn else 0.0)
         return f"|schulz_zimm({_f(rnd, Mw)}, {_f(rnd, Mn)})|", fam
@@ -708,6 +708,8 @@ SOLVENTS = ["CCO", "C1CCOC1", "CCCCC", "O", "CC(=O)C", "c1ccccc1C", "ClC(Cl)Cl",
 def _small_polymer(rnd, cfg):
     """a short chain component (1-6 units) so that ensembles of a few dozen members stay cheap"""
     kind = rnd.choice(["linear", "linear", "closed", "dollar", "two_block", "archetype"])
+    if cfg.get("allow_selfclose") and rnd.random() < 0.12:
+        kind = "selfclose"
     fam = cfg.get("family")
     if kind == "archetype":
         c = dict(cfg)
@@ -718,6 +720,16 @@ def _small_polymer(rnd, cfg):
     u = rnd.choice(UNITS2)[0]
     n = rnd.choice([1, 2, 3, 5])
     dist, f = make_dist(rnd, unit_mass(u), n, fam, cfg.get("safe_dist", False))
+    if kind == "selfclose":
+        # a chain stopper among the repeat units (mono-functional unit): the object may close the chain although a suffix follows.
+        # The library then refuses the member (RuntimeError at the hand-over); what it must never do is hand out the truncated chain
+        stop = rnd.choice(["F", "Cl", "OC", "C#N"])
+        w = rnd.choice(["", "|0.2|", "|0.05|", "|1|"])
+        if rnd.random() < 0.5:
+            return (rnd.choice(PLAIN) + "{[>]" + u.format("[<]", "[>]") + ", [<%s]%s [<]}" % (w, stop) + dist + rnd.choice(PLAIN_SUFFIX),
+                    {"arch:sys_selfclose", "family:" + f})
+        return (rnd.choice(PLAIN) + "{[$]" + u.format("[$]", "[$]") + ", [$%s]%s [$]}" % (w, stop) + dist + rnd.choice(PLAIN_SUFFIX),
+                {"arch:sys_selfclose", "family:" + f})
     if kind == "linear":
         return rnd.choice(PLAIN) + "{[>]" + u.format("[<]", "[>]") + "[<]}" + dist + rnd.choice(PLAIN_SUFFIX), {"arch:sys_linear", "family:" + f}
     if kind == "closed":
